@@ -25,13 +25,15 @@ const (
 	LField = iota // field of a heap object: Heap[Base]
 	LElem         // element of a backing array: Heap[Base][Idx]
 	LCell         // cell: Heap[Base]
+	LSub          // element Idx of an array value stored at Parent
 )
 
 type Loc struct {
-	Kind int
-	Heap string
-	Base string
-	Idx  string
+	Kind   int
+	Parent *Loc
+	Heap   string
+	Base   string
+	Idx    string
 	S    string     // sort of the pointee
 	G    types.Type // Go type of the pointee
 }
@@ -101,6 +103,10 @@ type Gen struct {
 	heads   []*ssa.BasicBlock
 	siteOrd map[string]int
 
+	noRefine    bool
+	retReach    []string
+	verAlloc    map[string]string // heap version constant -> allocation counter when it was introduced
+	tagAlloc    map[string]string
 	ownModsDone bool
 	ownModsV    []modLoc
 }
@@ -180,7 +186,9 @@ func (g *Gen) check(kind, what, cond, desc string) {
 		Desc: desc,
 	}
 	g.obls = append(g.obls, ob)
-	g.cur = g.define("r", "Bool", and(g.cur, cond))
+	if !g.noRefine {
+		g.cur = g.define("r", "Bool", and(g.cur, cond))
+	}
 }
 
 // ---------- sorts, type keys ----------
@@ -322,7 +330,13 @@ func (g *Gen) heap(st *State, name, sort string) string {
 	} else if st.pendAll != "" {
 		tag = st.pendAll
 	}
-	return g.declConst(name+"@"+tag, g.heapSort[name])
+	c := g.declConst(name+"@"+tag, g.heapSort[name])
+	if tag == "0" {
+		g.verAlloc[c] = g.entry.alloc
+	} else if a, ok := g.tagAlloc[tag]; ok {
+		g.verAlloc[c] = a
+	}
+	return c
 }
 
 func (g *Gen) setHeap(st *State, name, sort, term string) {
@@ -365,6 +379,10 @@ func (g *Gen) heapSortOfLoc(l *Loc) string {
 }
 
 func (g *Gen) loadLoc(st *State, l *Loc) Val {
+	if l.Kind == LSub {
+		pv := g.loadLoc(st, l.Parent)
+		return Val{T: sx("select", pv.T, l.Idx), S: l.S, G: l.G}
+	}
 	h := g.heap(st, l.Heap, g.heapSortOfLoc(l))
 	var t string
 	if l.Kind == LElem {
@@ -376,6 +394,11 @@ func (g *Gen) loadLoc(st *State, l *Loc) Val {
 }
 
 func (g *Gen) storeLoc(st *State, l *Loc, v string) {
+	if l.Kind == LSub {
+		pv := g.loadLoc(st, l.Parent)
+		g.storeLoc(st, l.Parent, sx("store", pv.T, l.Idx, v))
+		return
+	}
 	hs := g.heapSortOfLoc(l)
 	h := g.heap(st, l.Heap, hs)
 	if l.Kind == LElem {
